@@ -29,7 +29,10 @@ AI == INSTANCE AuthInternal WITH Profiles <- {}, Big <- FALSE,
 
 Paths  == {"cam1", "other"}          \* paths with a stream and a muxer
 Ghost  == "ghost"                    \* a path without stream
-IPs    == {"10.0.0.5", "10.0.1.5"}   \* client addresses (forwarded by the trusted proxy)
+\* client addresses (forwarded by the trusted proxy). "The same IP" is equality of addresses: the set
+\* holds addresses whose text is a prefix of another's (10.0.0.1 / 10.0.0.12 / 10.0.0.123,
+\* 2001:db8::1 / 2001:db8::12), inside and outside the network of the IP-restricted user
+IPs    == {"10.0.0.1", "10.0.0.12", "10.0.0.123", "10.0.1.5", "2001:db8::1", "2001:db8::12"}
 Creds  == {"alice", "carol", "dave", "erin", "bad", "none"}
 Kinds  == {"playlist", "segment", "part"}
 Auths  == {"none", "cdn", "wrong"}   \* Authorization header: absent, Bearer <CDN secret>, Bearer <something else>
@@ -44,8 +47,15 @@ Users == << AI!Entry(<<>>, <<PReadAll>>, AI!Cred("plain", "alice"), AI!Cred("pla
 UserOf(c) == IF c \in {"none"} THEN "" ELSE IF c = "bad" THEN "alice" ELSE c
 PassOf(c) == IF c = "none" THEN "" ELSE IF c = "bad" THEN "wrong" ELSE "pw"
 
-\* "an authorized client": C01's statement for action read on that path
-Admit(p, c, ip) == AI!AdmitLo(Users, AI!Req("read", p, UserOf(c), PassOf(c), "", ip, TRUE, "none"))
+\* ground truth of containment for the networks used here
+NetHas(n) == CASE n = "10.0.0.0/24" -> {"10.0.0.1", "10.0.0.12", "10.0.0.123"}
+IPok(u, ip) == \E i \in 1..Len(u.ips) : ip \in NetHas(u.ips[i])
+\* "an authorized client": C01's statement (EntryF / GrantsLo / CredMatch) for action read on that path
+Admit(p, c, ip) ==
+    LET r == AI!Req("read", p, UserOf(c), PassOf(c), "", ip, TRUE, "none") IN
+    \E i \in 1..Len(Users) :
+        AI!EntryF(Users[i].ips = <<>>, IPok(Users[i], ip), AI!GrantsLo(Users[i], r),
+                  AI!IsAny(Users[i].user), AI!CredMatch(Users[i], r))
 
 \* ------------------------------------------------------------------ layer 2: the statement
 \* ss: sequence of sessions [path, ip, adm, alive]; sid: the secret the request carries
